@@ -357,6 +357,7 @@ func (g *Generate) extractTraitDescs(tName string, pkgScope *types.Scope, values
 					constValue:   v.Val(),
 				},
 			},
+			generated: g.generatedUnmarshalers(tName, v.Type(), pkgScope),
 		}
 		traits = append(traits, tDesc)
 	}
@@ -390,6 +391,26 @@ func (g *Generate) extractTraitDescs(tName string, pkgScope *types.Scope, values
 	}
 
 	return traits, nil
+}
+
+// generatedUnmarshalers describes the unmarshalers of a trait type that is one of the enums this
+// invocation generates; it returns nil for every other type. The methods of such a type are the
+// ones this run writes into the output file. go/types cannot be asked about them: it sees the
+// methods of the previous output, if there is one, so a fresh run and a second run would generate
+// different decoders for enumType.
+func (g *Generate) generatedUnmarshalers(
+	enumType string, traitType types.Type, pkgScope *types.Scope,
+) *unmarshalers {
+	named, ok := types.Unalias(traitType).(*types.Named)
+	if !ok || named.Obj().Parent() != pkgScope || !slices.Contains(g.Types, named.Obj().Name()) {
+		return nil
+	}
+	if named.Obj().Name() == enumType {
+		// The decoders of an enum cannot decode a trait value through themselves, they would
+		// never return. A trait of the enum's own type is decoded through its underlying type.
+		return &unmarshalers{}
+	}
+	return &unmarshalers{json: g.GenJSON, yaml: g.GenYAML}
 }
 
 // Write writes out the enum config file as configured.
